@@ -249,7 +249,7 @@ Proof.
     [|pose proof (mul_le_l siz (p + 1 + m) (nlen sl)); lia].
   cbn [andb]. f_equal.
   rewrite !N2Nat.inj_mul. replace (N.to_nat (p + 1)) with (N.to_nat p + 1)%nat by lia.
-  rewrite (swap_loop_rot (N.to_nat siz)); [|lia|exact H|unfold nlen in Hp; lia].
+  rewrite (swap_loop_rot (N.to_nat siz)); [|exact H|unfold nlen in Hp; lia].
   rewrite <- (lrot_length (N.to_nat p) (N.to_nat m) sl) by (unfold nlen in Hp; lia).
   apply chunk_concat. apply (Forall_lrot (fun e => length e = N.to_nat siz));
     [unfold nlen in Hp; lia|exact H].
